@@ -243,6 +243,24 @@ ASSUME_PATS = [
 ]
 
 
+_PROVED_ELSEWHERE = None
+
+
+def proved_bodies():
+    """{fn name: unit} for every `//@@ item fn` block that is woven on the real body (not sigonly)"""
+    global _PROVED_ELSEWHERE
+    if _PROVED_ELSEWHERE is None:
+        out = {}
+        import glob
+        for f in glob.glob(os.path.join(ROOT, "units", "*.vu")):
+            txt = open(f).read()
+            for m in re.finditer(r"//@@ item fn (\w+) from[^\n]*\n(.*?)//@@ end", txt, re.S):
+                if "//@@ sigonly" not in m.group(2):
+                    out.setdefault(m.group(1), os.path.basename(f)[:-3])
+        _PROVED_ELSEWHERE = out
+    return _PROVED_ELSEWHERE
+
+
 def scan_assumptions(lines, lmap):
     found = []
     for i, ln in enumerate(lines):
@@ -251,15 +269,23 @@ def scan_assumptions(lines, lmap):
             if pat.search(code):
                 # name of the next fn / type on the following lines
                 nm = ""
-                for k in range(i, min(i + 6, len(lines))):
-                    m = re.search(r"\b(fn|struct|enum|trait|type)\s+(\w+)", lines[k])
-                    if m:
-                        nm = m.group(2)
-                        break
+                if tag == "assume_specification":
+                    mm = re.search(r"assume_specification[^\[]*\[\s*(.*?)\s*\]\s*\(", " ".join(lines[i:i + 3]))
+                    nm = mm.group(1) if mm else ""
+                else:
+                    for k in range(i, min(i + 6, len(lines))):
+                        m = re.search(r"\b(fn|struct|enum|trait|type)\s+(\w+)", lines[k])
+                        if m:
+                            nm = m.group(2)
+                            break
                 m = lmap[i] if i < len(lmap) else {}
                 if m.get("canary"):
                     continue
-                origin = "extracted:" + m["item"] if "item" in m else "prelude:" + m.get("tmpl", "?")
+                if "item" in m:
+                    unit = proved_bodies().get(short_item(m["item"]))
+                    origin = "contract stub of " + m["item"] + (f"; the same contract is PROVED on the body in unit {unit}" if unit else "; body NOT verified anywhere")
+                else:
+                    origin = "assumed, prelude " + m.get("tmpl", "?")
                 found.append(f"{tag} {nm} ({origin})")
     return sorted(set(found))
 
